@@ -582,6 +582,15 @@ class Gen:
             return r.choice([5, None, (1,), (1, 2, 3), "ab", b"ab", "a", frozenset([1, "v"]), (), 1.5, "abc", b"\x01\x05"])
         if k == 22:
             return (2, r.choice([5, None, "ab", b"ab", "", b"", frozenset([(1, 1)]), ((1, 1), 7)]))
+        if k == 23 and depth > 0:
+            # several bad parts in one package: which error wins, and does anything reach the peer before it
+            bad_remote = r.choice([(4, ("canary.Foo", r.below(3), 0)), (4, 5), (4, ("a",)), (9, 0), (4, (r.choice(BUILTIN_NAMES), 1, 1)),
+                                   5, (1, 2, 3)])
+            bad_local = (3, self.idpack()) if r.chance(2, 3) else self.ref()
+            parts = [bad_remote, bad_local] if r.chance(1, 2) else [bad_local, bad_remote]
+            if r.chance(1, 3):
+                parts = [(2, tuple(parts))]
+            return (2, tuple(parts + [self.pkg(0)]))
         return (1, self.value())
 
     def name(self):
